@@ -411,8 +411,11 @@ class Contract:
                  raise_when=None, setup=None, twins=None, replay=None, top=False, note='',
                  checks=None, inline_callees=(), typed=False, param_alternatives=None, gen_loops=None,
                  old_at='entry', kwargs_type=None, monitor=False, events=True, raise_effects=None,
-                 reach=True, optional=False):
+                 reach=True, optional=False, top_level=False):
         self.target = target
+        # top_level: an entry point that verified code never calls through this contract (task mains run by the
+        # executor, public API).  No frame obligations are generated for it, and using it at a call site is an error.
+        self.top_level = top_level
         self.optional = optional      # helper that may legitimately not exist: its contract is then dropped (recorded)
         self.props = tuple(props)
         self.params = params or {}
@@ -427,6 +430,9 @@ class Contract:
         self.raises = raises or {}        # exc class name -> fn(c) -> dict name->Bool (checked)
         self.raise_when = raise_when or {}  # exc class name -> fn(c) -> Bool assumed at call sites
         self.raise_effects = raise_effects or {}
+        # modifies: fn(ctx) -> list of locations ('f', obj_ref, field) | ('m', obj_ref, meta_key) | ('g', ghost_key[, sub])
+        # the function may change besides what `effects` sets: havocked at call sites on every exit, and the
+        # root is checked to modify nothing else (frame)
         self.modifies = modifies
         self.returns = returns
         self.effects = effects
